@@ -39,6 +39,9 @@ def _len(x):
         return I.obj_len(x)
     if isinstance(x, SFlags):
         return wrap_int(z3.Sum(*[z3.If(b, 1, 0) for b in x.bits.values()]))
+    if isinstance(x, SAbs) and isinstance(x.kind, tuple) and x.kind[0] == 'enum_str':
+        _, ecls, attr_name = x.kind
+        return wrap_int(V.enum_table(ecls, x.term, lambda m: len(getattr(m.value, attr_name))))
     if V.is_symbolic(x) and not isinstance(x, (list, tuple, dict, set)):
         raise_(TypeError, 'object has no len()')
     return I.native(len, [x], {})
@@ -58,10 +61,22 @@ def _bytes(x=b'', *a):
     if isinstance(x, SStr):
         raise_(TypeError, 'string argument without an encoding')
     if isinstance(x, SObj):
+        items = vector_items(x)
+        if items is not None:
+            return seq_to_bytes(items, 'bytes')
         raise E.Unsupported('bytes(object)')
     if isinstance(x, (list, tuple)) and V.is_symbolic(x):
         return seq_to_bytes(ops.as_seq(x), 'bytes')
     return I.native(bytes, [x] + list(a), {})
+
+
+def vector_items(o):
+    """the int sequence a repository vector object iterates over (ArrayBase.__len__/__getitem__ read _items)"""
+    from cryptoparser.common.base import ArrayBase
+    if isinstance(o, SObj) and issubclass(o.cls, ArrayBase) and isinstance(o.f.get('_items'), (SSeq, list)):
+        used('iterating an ArrayBase object yields the elements of its _items in order (its __len__/__getitem__)')
+        return ops.as_seq(o.f['_items'])
+    return None
 
 
 def seq_to_bytes(x, kind):
@@ -99,6 +114,8 @@ def _bytearray(x=b'', *a):
         raise_(TypeError, 'string argument without an encoding')
     if isinstance(x, (list, tuple)) and V.is_symbolic(x):
         return seq_to_bytes(ops.as_seq(x), 'bytearray')
+    if isinstance(x, SObj) and vector_items(x) is not None:
+        return seq_to_bytes(vector_items(x), 'bytearray')
     if V.is_symbolic(x):
         raise E.Unsupported('bytearray(%s)' % type(x).__name__)
     return I.native(bytearray, [x] + list(a), {})
@@ -176,6 +193,8 @@ def _enumerate(x, start=0):
 
 @model(iter)
 def _iter(x):
+    if isinstance(x, loops.SFilter):
+        return x
     if V.is_symbolic(x) and not isinstance(x, (list, tuple, dict)):
         return x
     if isinstance(x, (list, tuple)):
@@ -193,6 +212,13 @@ class ListIter(object):
 
 @model(next)
 def _next(it, *default):
+    if isinstance(it, loops.SFilter):
+        found, val = it.first()
+        if found:
+            return val
+        if default:
+            return default[0]
+        raise_(StopIteration)
     if isinstance(it, ListIter):
         if it.pos < len(it.items):
             it.pos += 1
@@ -462,11 +488,7 @@ def _indexbytes(buf, i):
 
 
 
-@model(six.iterbytes)
-def _iterbytes(buf):
-    if isinstance(buf, SSeq):
-        return buf.copy('list')
-    return list(six.iterbytes(buf))
+# six.iterbytes is the builtin iter on Python 3: covered by the model of iter
 
 
 def ascii_guard(seq, what):
@@ -879,3 +901,32 @@ def _from_code(cls, code):
             return ms[idx.as_long()] if z3.is_int_value(idx) else SEnum(cls, idx)
         raise E.PyRaise(I.construct(_InvalidValue, [code, cls, 'code'], {}))
     raise E.Unsupported('from_code(%s)' % type(code).__name__)
+
+
+@model(dict)
+def _dict(*a, **kw):
+    if a and isinstance(a[0], SObj):
+        from . import frame
+        fr = frame.Frame(_dict, {}, None)
+        out = dict(fr.mapping_items(a[0]))
+        out.update(kw)
+        return out
+    return dict(*a, **kw)
+
+
+@model(set)
+def _set(x=()):
+    if isinstance(x, SFlags):
+        return SFlags(x.cls, dict(x.bits))
+    if V.is_symbolic(x):
+        raise E.Unsupported('set(%s)' % type(x).__name__)
+    return set(x)
+
+
+@model(frozenset)
+def _frozenset(x=()):
+    if isinstance(x, SFlags):
+        return SFlags(x.cls, dict(x.bits))
+    if V.is_symbolic(x):
+        raise E.Unsupported('frozenset(%s)' % type(x).__name__)
+    return frozenset(x)
